@@ -301,3 +301,38 @@ theorem parseBody_write (b : Bytes) (ps : List (Part × List (Bytes × Bytes)))
     simp at this ⊢; omega
 
 end Req.Multipart
+
+namespace Req.Multipart
+open Req.Proto Req.Ascii
+
+/-- `BoundaryFree` follows from the plain statement "the delimiter CRLF `--` boundary does not
+occur in the content" as soon as the boundary contains no CR (true of every boundary
+`SetBoundary` accepts): an occurrence cannot straddle into the real delimiter because the
+delimiter's first byte, CR, occurs nowhere else in it. -/
+theorem boundaryFree_of_not_infix (b c : Bytes) (hcr : (13 : UInt8) ∉ b)
+    (h : ¬ (delim b) <:+: c) : BoundaryFree (delim b) c := by
+  intro i hi hp
+  have hd : delim b = 13 :: 10 :: 45 :: 45 :: b := by simp [delim, crlf, dashes]
+  by_cases hlen : (delim b).length ≤ (c.drop i).length
+  · -- the occurrence lies inside the content
+    have hpre : delim b <+: c.drop i :=
+      List.prefix_of_prefix_length_le hp (List.prefix_append _ _) hlen
+    apply h
+    obtain ⟨t, ht⟩ := hpre
+    exact ⟨c.take i, t, by rw [List.append_assoc, ht, List.take_append_drop]⟩
+  · -- it would straddle: the byte of the delimiter at offset |s| ≥ 1 would have to be CR
+    have hs : 0 < (c.drop i).length := by simp; omega
+    have hlt : (c.drop i).length < (delim b).length := by omega
+    obtain ⟨t, ht⟩ := hp
+    have h1 : (delim b ++ t)[(c.drop i).length]? = (c.drop i ++ delim b)[(c.drop i).length]? := by rw [ht]
+    rw [List.getElem?_append_left hlt, List.getElem?_append_right (Nat.le_refl _)] at h1
+    simp only [Nat.sub_self] at h1
+    rw [hd] at h1
+    obtain ⟨n, hn⟩ : ∃ n, (c.drop i).length = n + 1 := ⟨(c.drop i).length - 1, by omega⟩
+    rw [hn] at h1
+    simp only [List.getElem?_cons_succ, List.getElem?_cons_zero] at h1
+    have hmem : (13 : UInt8) ∈ (10 :: 45 :: 45 :: b) := List.mem_of_getElem? h1
+    simp at hmem
+    exact hcr hmem
+
+end Req.Multipart
